@@ -26,18 +26,3 @@ fn kani_concrete_playback_vk_c06_agree_divide_S_S_1299751901443167593() {
     kani::concrete_playback_run(concrete_vals, vk_c06_agree_divide_S_S);
 }
 
-/// Test generated for harness `core::casting::vk_c06::vk_c06_agree_divide_S_S` 
-///
-/// Check for `cover`: "vk_reached"
-
-#[test]
-fn kani_concrete_playback_vk_c06_agree_divide_S_S_12952202930623685471() {
-    let concrete_vals: Vec<Vec<u8>> = vec![
-        // -1.972152e-31
-        vec![255, 255, 127, 140],
-        // 0
-        vec![0, 0, 0, 0],
-    ];
-    kani::concrete_playback_run(concrete_vals, vk_c06_agree_divide_S_S);
-}
-
